@@ -297,7 +297,7 @@ impl<'a> Worker<'a> {
 
             work_item
                 .external_file_dependencies
-                .extend(context.into_dependencies());
+                .extend(context.into_dependencies().map(normalize_path));
 
             rule_result?;
 
@@ -405,7 +405,7 @@ impl<'a> Worker<'a> {
 
         work_item
             .external_file_dependencies
-            .extend(context.into_dependencies());
+            .extend(context.into_dependencies().map(normalize_path));
 
         rule_result?;
 
